@@ -44,6 +44,29 @@ def unaryAll {α β} (f : α → β) (rows : List (α × Bool)) : List (β × Bo
 def logical {α} (rows : List (α × Bool)) : List (Option α) :=
   rows.map (fun r => if r.2 then some r.1 else none)
 
+/-! ### indirections: the run-end "expand" arm of `run_end_encoded_cast` -/
+
+/-- physical run holding logical position `i`: the first run whose end exceeds `i`
+(the `while … run_ends[physical_idx] <= logical_idx` loop) -/
+def physIdx : List Nat → Nat → Nat
+  | [], _ => 0
+  | e :: es, i => if i < e then 0 else physIdx es i + 1
+
+/-- `take(values, indices)` over the logical window `[offset, offset + len)` of a run array -/
+def reeTake {α} (dflt : α × Bool) (runEnds : List Nat) (values : List (α × Bool)) (offset len : Nat) :
+    List (α × Bool) :=
+  (List.range len).map (fun i => values.getD (physIdx runEnds (offset + i)) dflt)
+
+/-- the expand arm as written: take the window first, then cast the taken rows
+(`try_unary` in strict mode, `unary_opt` in safe mode) -/
+def reeExpandStrict {α β} (f : α → Option β) (z : β) (dflt : α × Bool) (runEnds : List Nat)
+    (values : List (α × Bool)) (offset len : Nat) : Option (List (β × Bool)) :=
+  tryUnary f z (reeTake dflt runEnds values offset len)
+
+def reeExpandSafe {α β} (f : α → Option β) (z : β) (dflt : α × Bool) (runEnds : List Nat)
+    (values : List (α × Bool)) (offset len : Nat) : List (β × Bool) :=
+  unaryOpt f z (reeTake dflt runEnds values offset len)
+
 /-! ### fixed-width integers -/
 
 /-- `x` fits a signed two's-complement integer of `w` bits -/
